@@ -46,7 +46,7 @@ INVS = [
     "NamesDistinct",
     "InertFields",
 ]
-ALL_OPS = {"StartEpisode", "StopEpisode", "RecordStat", "DefineFrequency", "RecordEpoch"}
+ALL_OPS = {"StartEpisode", "StopEpisode", "RecordStat", "DefineFrequency", "RecordEpoch", "DefineExperiment"}
 TMP = os.path.join(tlc.OUT, "tmp")
 
 
@@ -184,6 +184,7 @@ class Ad:
             self.members.append(o)
         assert wrap or len(self.members) == 1
         self.obj = L["lg"].LoggerList(self.members) if wrap else self.members[0]
+        self.n_exp = 0
         self.restored = {}  # real mode: path -> digest restored right after it was listed
         self.live = L["Tiny"](0) if real else None  # real mode: ONE module mutated in place between epochs
 
@@ -213,6 +214,9 @@ def step(ad: Ad, op, args, exp, pre=None, post=None):
             ad.obj.record_stat(args["key"], args["v"], episode=_opt(args["ep"]), step=_opt(args["step"]))
         elif op == "DefineFrequency":
             ad.obj.define_checkpoint_frequency(args["key"], args["I"])
+        elif op == "DefineExperiment":
+            ad.n_exp = getattr(ad, "n_exp", 0) + 1
+            ad.obj.define_experiment(f"Env-v{ad.n_exp}", "TD3_x", {"lr": 0.5})
         elif op == "RecordEpoch":
             if ad.real:
                 ad.live.w.value = L["jnp"].array([float(args["ver"])], L["jnp"].float32)
@@ -239,7 +243,7 @@ def step(ad: Ad, op, args, exp, pre=None, post=None):
             want = (exp["ep"], exp["step"], args["key"], "{0:.3f}".format(args["v"]))
             if got != want:
                 raise Mismatch(f"stdout: line reports (episode, step, key, value) = {got}, model {want}", code="stdout:line_location")
-    elif out:
+    elif out and not (op == "DefineExperiment" and n_stdout):  # StdoutLogger prints the hyperparameters
         raise Mismatch(f"stdout: unexpected output on {op}: {out[0]!r}", code="stdout:unexpected_output")
 
 
@@ -587,7 +591,7 @@ def run(rep):
 
         lap("binding_canary")
         # ---- 5. real orbax writes + restores on sampled behaviours of the cadence graphs ------
-        budget = 90 if quick else 600  # real checkpoint directories (~0.06 s each)
+        budget = 90 if quick else 420  # real checkpoint directories (~0.06 s each)
         writes = 0
         n_real = 0
         for name in ("cadence/all", "cadence2/all", "mixed/all"):
